@@ -159,6 +159,7 @@ class Rules:
             self.r_groups(I, seg)
             self.r_preconsume(I, seg)
             self.r_macrosep(I, seg)
+            self.r_payload_escape(I, seg)
 
     # -- R-NONEMPTY and R-ERR-PAIR ---------------------------------------------------------------
     MAY_BE_EMPTY = {"EOF", "MacroSep", "MacroStringEmpty", "SEMI", "LPAREN", "RPAREN", "ASSIGN", "COMMA", "FSLASH",
@@ -598,6 +599,42 @@ class Rules:
                  "%s consumes the first character itself before %s: %s" % (short_fn(seg.name), callee, e.d.get("why")) if ok else
                  "%s consumes the first character of the token itself and then calls %s, but from the token start %s; "
                  "conditions: %s" % (short_fn(seg.name), callee, e.d.get("why"), "; ".join(seg.st.conds[-4:])[:240]))
+
+    # -- R-PAYLOAD-ESCAPE: a token whose text skipped an escape character carries a payload ----------------------
+    def r_payload_escape(self, I, seg):
+        """A literal section is cut (add_string_literal) only where the scanner skips a quoting character.  If that
+        happened since the token start, the token emitted by the same scanner must carry the unquoted payload; the
+        lexer decides this by comparing literal-buffer positions, which LEA tracks as ordered labels."""
+        from . import lea_prims
+        st = seg.st
+        evs = seg.events
+        for idx in range(seg.start, len(evs)):
+            e = evs[idx]
+            if e.kind != "emit" or e.d.get("owner") != seg.name:
+                continue
+            pl = e.d.get("payload")
+            sn = lea_prims.snap_of(e.d.get("byte"))
+            if sn is None:
+                continue
+            cuts = []
+            for x in evs[seg.start:idx]:
+                if x.kind == "cur_token_write" and x.d.get("field") == "cur_token_byte_offset":
+                    cuts = []
+                if x.kind == "add_literal" and (x.d.get("owner") == seg.name or x.fn == seg.name):
+                    cuts.append(x)
+            if not cuts:
+                continue
+            key = "%s|%s" % (short_fn(seg.name), self.sites.key(e).split("|", 1)[-1])
+            self.bump("R-PAYLOAD-ESCAPE", "emissions", key)
+            none = isinstance(pl, Enum) and pl.variant == "None"
+            assumed = any("litpos" in repr(k) or "lit_end" in repr(k) or "lit_next" in repr(k) for k in st.bfacts)
+            if none and assumed:
+                continue      # the comparison of buffer positions was not decidable on this path: no verdict
+            I.ob("R-PAYLOAD-ESCAPE", key, not none, self.sites.where(e),
+                 "the token is emitted with its unquoted payload after %d literal section cut(s)" % len(cuts) if not none else
+                 "the scanner skipped a quoting character (literal section cut at %s, empty=%s) but the token is emitted with "
+                 "Payload::None: its text still contains the quoting; conditions: %s"
+                 % (F.file_line(cuts[0].site or "?"), cuts[0].d.get("empty"), "; ".join(st.conds[-4:])[:240]))
 
     # -- R-MACROSEP-EMIT (emission sites): a MacroSep is only emitted on a path where needs_macro_sep said yes -----
     def r_macrosep(self, I, seg):
